@@ -51,6 +51,21 @@ fn cli(args: &[&str], stdin: Option<&str>) -> Option<(bool, String)> {
     Some((o.status.success(), String::from_utf8_lossy(&o.stdout).trim().to_string()))
 }
 
+/// programs whose run-time type tests go through the type table in every way a packaging step can disturb: aliases of partial,
+/// union, nested and recursive types tested against values built in other functions
+fn type_test_template(rng: &mut Rng) -> String {
+    let l = *rng.pick(&["x", "y", "k"]); let m = *rng.pick(&["a", "b"]);
+    let (t1, v1, t2, v2) = if rng.chance(1, 2) { ("'int", rng.range(0, 9).to_string(), "'bin", "0x00".to_string()) } else { ("'bin", "0x0102".to_string(), "'int", rng.range(0, 9).to_string()) };
+    match rng.below(6) {
+        0 => format!("'h = ({l}: {t1})\nf = #(P[{l}: {t1}] | Q[{l}: {t2}]) {{ | ='h => 1 | 2 }},\n[P[{l}: {v1}] f, Q[{l}: {v2}] f]"),
+        1 => format!("'h = P({l}: {t1})\nmk = #'int {{ | =0 => P[{m}: 1, {l}: {v1}] | =1 => P[{l}: {v2}, {m}: 2] | Q[{l}: {v1}] }},\nf = #(P[{m}: 'int, {l}: {t1}] | P[{l}: {t2}, {m}: 'int] | Q[{l}: {t1}]) {{ | ='h => 1 | 2 }},\n[0 mk f, 1 mk f, 2 mk f]"),
+        2 => format!("'u = A[{t1}] | B[{t2}, {t1}]\n'w = [{l}: 'u, {m}: {t2}]\nmk = #'int {{ | =0 => [{l}: A[{v1}], {m}: {v2}] | [{l}: B[{v2}, {v1}], {m}: {v2}] }},\ng = #([{l}: (A[{t1}] | B[{t2}, {t1}] | C), {m}: {t2}]) {{ | ='w => 1 | 2 }},\n[0 mk g, 1 mk g, [{l}: C, {m}: {v2}] g]"),
+        3 => format!("'list = Nil | Cons[{t1}, ^]\nmk = #'int {{ | =0 => Nil | =1 => Cons[{v1}, Nil] | Cons[{v1}, Cons[{v1}, Nil]] }},\nf = #(Nil | Cons[{t1}, 'list] | Other) {{ | ='list => 1 | 2 }},\n[0 mk f, 1 mk f, 2 mk f, Other f]"),
+        4 => format!("'h = ({l}: ({m}: {t1}))\nf = #(P[{l}: Q[{m}: {t1}]] | P[{l}: Q[{m}: {t2}]]) {{ | =('h)w => w.{l}.{m} | 0x7f }},\n[P[{l}: Q[{m}: {v1}]] f, P[{l}: Q[{m}: {v2}]] f]"),
+        _ => format!("'p = ({l}: {t1}) | R[{t2}]\nbuild = #'int {{ | =0 => S[{l}: {v1}] | =1 => R[{v2}] | S[{l}: {v2}] }},\nf = #(S[{l}: {t1}] | R[{t2}] | S[{l}: {t2}]) {{ | ='p => 1 | 2 }},\n[0 build f, 1 build f, 2 build f]"),
+    }
+}
+
 /// a module: bindings, then a record of some of them (values and functions)
 fn gen_module(rng: &mut Rng) -> (String, Vec<(String, bool)>) {
     let mut g = Gen::new(rng, 16);
@@ -168,6 +183,8 @@ pub fn check(rep: &Report) {
         }
         // ---------------- packaging paths
         let (family, src): (&str, String) = if j < items.len() { ("corpus", items[j].src.clone()) }
+            else if j < items.len() + n_gen && j % 6 == 0 { ("type-test-templates", type_test_template(&mut rng)) }
+            else if j < items.len() + n_gen && j % 6 == 1 { let mut g = Gen::new(&mut rng, 16); g.allow_partial_params = true; ("generated", g.program()) }
             else if j < items.len() + n_gen { let fuel = *rng.pick(&[8i64, 16, 30]); let mut g = Gen::new(&mut rng, fuel); ("generated", g.program()) }
             else { let cfg = crate::scen::GenCfg { max_nodes: 6, max_depth: 3, confluent: true, fail_permille: 100, binaries: true }; ("process-scenarios", crate::scen::generate(&mut rng, &cfg).emit()) };
         let Ok(Ok(cp)) = std::panic::catch_unwind(|| qv::compile(&src, &b)) else { rep.count(&format!("{}_not_accepted", family), 1); return; };
@@ -209,4 +226,4 @@ pub fn check(rep: &Report) {
 
 pub const RULE: &str = "for every accepted program of the workload: canonical outcome (value with function indices erased / error / fates of all processes) as compiled == after tree_shake == after a serde_json round trip (plain and shaken) == when merged into an environment after 1-4 other programs (plain or shaken, sometimes including a copy of itself); `quiv run -e` prints what `quiv compile` + `quiv run` prints, and that text re-evaluates to the in-process value; `%lib` / `%lib.member` == the module body evaluated in place";
 pub const ASSUME: &[&str] = &["outcomes are compared after erasing function indices (packaging renumbers them)", "CLI family: programs without processes or I/O, 20 s per invocation", "import family: module bodies without type aliases (a block cannot declare them)"];
-pub const SITUATIONS: &[&str] = &["path=tree-shake", "path=json-round-trip", "path=merge", "merged_after_a_copy_of_itself", "import_vs_in_place_compared", "import_of_a_function_member", "cli_run_vs_compile_then_run", "cli_top_level_programs", "cli_acceptance_compared_on_a_rejected_program", "process-scenarios_programs", "corpus_programs", "generated_programs"];
+pub const SITUATIONS: &[&str] = &["path=tree-shake", "path=json-round-trip", "path=merge", "merged_after_a_copy_of_itself", "import_vs_in_place_compared", "import_of_a_function_member", "cli_run_vs_compile_then_run", "cli_top_level_programs", "cli_acceptance_compared_on_a_rejected_program", "process-scenarios_programs", "corpus_programs", "generated_programs", "type-test-templates_programs"];
